@@ -334,7 +334,9 @@ func (l *WAL) replayPhysicRecord(fr *bufio.Reader, walFileName string, recordCom
 		writeWalType: writeWalType,
 	}
 	n, err = io.ReadFull(fr, recordCompBuff)
-	if err == nil || err == io.EOF {
+	// io.EOF means that not a single body byte follows the header (the record was cut right after it):
+	// the reused buffer then still holds an earlier record and must not be decoded
+	if err == nil {
 		var innerErr error
 		binaryBuff, innerErr = snappy.Decode(binaryBuff, recordCompBuff)
 		if innerErr != nil {
